@@ -24,7 +24,8 @@ def batch(batch_size):
         # a full batch has already been emitted: start a new one
         b = [] if acc[1] is True else acc[0]
         b.append(i)
-        return (b, len(b) == batch_size)
+        # a plain bool: batch_size may be a numpy integer
+        return (b, bool(len(b) == batch_size))
 
     def _terminate(acc):
         # only pending items form the final, partial batch
